@@ -84,4 +84,77 @@ theorem weights_checked_first (T : TaskSem) (raw : List Raw) (tag : Nat) (w xs :
 example : prologue { hasConfig := true, workers := some 2, modeValid := some true } = .ok () := rfl
 example : prologue { hasConfig := true, workers := some 0, modeValid := none } = .error .valueError := rfl
 
+
+/-! ## totality for disciplined optimizers: the only ways a run can fail
+
+`dalg_optimize_total` pins down what "does not fail part-way" rests on.  For an optimizer that obeys the agent discipline, a valid
+call returns a complete result provided (1) the objective/weight counts match (`WeighOK`), (2) its phases contain no raising node,
+hand `_init_agent` RawOK candidates only, and finish with a non-empty population of valid references (`Prog.Total`) — i.e. provided
+the *numerical bodies* do not raise.  Everything the framework itself does (correction, evaluation, sign, weights, fitness, sorting,
+unpacking of `special_agents`, bookkeeping, packaging) is discharged.  The 26 recorded C06 findings are all violations of (2) inside
+numerical bodies (÷0, sample sizes, index arithmetic). -/
+
+/-- a phase that cannot fail by itself; the index is the size of the arena it starts from -/
+inductive ProgTotal (T : TaskSem) : Prog σ → Nat → Prop where
+  | done (s : σ) (pop : List Nat) (n : Nat) : pop ≠ [] → (∀ i ∈ pop, i < n) → ProgTotal T (.done s pop) n
+  | eval (raw : List Raw) (k : Agent → Prog σ) (n : Nat) : rawOKList T.vars raw = true → (∀ a, ProgTotal T (k a) (n + 1)) →
+      ProgTotal T (.eval raw k) n
+
+/-- the number of objectives matches the number of weights at every point of the search space -/
+def WeighOK (T : TaskSem) : Prop := ∀ p, memList T.vars p = true → ∃ c, weigh T.dot T.weights (signIn T.dir (T.F p)) = .ok c
+
+theorem resolve_ok (arena : List Agent) (pop : List Nat) (h : ∀ i ∈ pop, i < arena.length) :
+    ∃ l, resolve arena pop = .ok l ∧ l.length = pop.length := by
+  induction pop with
+  | nil => exact ⟨[], rfl, rfl⟩
+  | cons i is ih =>
+    obtain ⟨l, hl, hlen⟩ := ih (fun j hj => h j (List.mem_cons_of_mem _ hj))
+    have hi := h i List.mem_cons_self
+    exact ⟨arena[i] :: l, by simp [resolve, List.getElem?_eq_getElem hi, hl, bind, Except.bind], by simp [hlen]⟩
+
+theorem mkAgent_ok (T : TaskSem) (hT : T.WF) (hW : WeighOK T) (raw : List Raw) (hraw : rawOKList T.vars raw = true) (tag : Nat) :
+    ∃ a arg, mkAgent T raw tag = .ok (a, arg) := by
+  cases h : mkAgent T raw tag with
+  | ok r => exact ⟨r.1, r.2, rfl⟩
+  | error e =>
+    obtain ⟨ys, hm, he⟩ := mkAgent_error T hT raw hraw tag e h
+    obtain ⟨c, hc⟩ := hW ys hm
+    rw [hc] at he; cases he
+
+theorem exec_total (T : TaskSem) (hT : T.WF) (hW : WeighOK T) (p : Prog σ) (n : Nat) (hp : ProgTotal T p n)
+    (arena : List Agent) (hn : arena.length = n) (calls : List (List Coord)) :
+    ∃ st, p.exec T arena calls = .ok st ∧ st.agents ≠ [] := by
+  induction hp generalizing arena calls with
+  | done s pop n hne hlt =>
+    obtain ⟨l, hl, hlen⟩ := resolve_ok arena pop (fun i hi => hn ▸ hlt i hi)
+    refine ⟨{ priv := s, arena := arena, pop := pop, calls := calls }, by simp [Prog.exec, hl], ?_⟩
+    simp only [RunState.agents, hl, Except.toOption, Option.getD]
+    intro h0; rw [h0] at hlen; simp at hlen; exact hne (List.length_eq_zero_iff.mp hlen.symm)
+  | eval raw k n hraw _ ih =>
+    obtain ⟨a, arg, hm⟩ := mkAgent_ok T hT hW raw hraw arena.length
+    obtain ⟨st, hst, hne⟩ := ih a (arena ++ [a]) (by simp [hn]) (calls ++ [arg])
+    exact ⟨st, by simp [Prog.exec, hm, hst], hne⟩
+
+/-- a disciplined optimizer whose phases cannot fail by themselves -/
+structure DAlgTotal (T : TaskSem) (A : DAlg σ) : Prop where
+  init : ∀ s, ProgTotal T (A.init s) 0
+  step : ∀ s arena pop, ProgTotal T (A.step s arena pop) arena.length
+
+/-- **C06 for disciplined optimizers**: a valid call of an optimizer whose numerical bodies do not raise returns a complete
+`OptimizationResult` — whatever its update rule, objective, configuration, direction. -/
+theorem dalg_optimize_total {R σ : Type} (T : TaskSem) (hT : T.WF) (hW : WeighOK T) (A : DAlg σ) (hA : DAlgTotal T A)
+    (ar : Arith R) (cfg : StopCfg R) (rate : List Agent → R) (c : Call) (hc : prologue c = .ok ()) (s0 : σ) :
+    ∃ res sN bN, optimize ar cfg (A.toAlg T) rate T.dir c ⟨s0, [], [], []⟩ = .ok (res, sN, bN) ∧
+      res.evolution ≠ [] ∧ res.evolution.length = res.rates.length + 1 := by
+  have hinit : ∃ s1, (A.toAlg T).init ⟨s0, [], [], []⟩ = .ok s1 ∧ s1.agents ≠ [] ∧ (A.toAlg T).pop s1 ≠ [] := by
+    obtain ⟨st, h1, h2⟩ := exec_total T hT hW (A.init s0) 0 (hA.init s0) [] rfl []
+    exact ⟨st, h1, h2, h2⟩
+  have hstep : ∀ s : RunState σ, s.agents ≠ [] → ∃ s', (A.toAlg T).step s = .ok s' ∧ s'.agents ≠ [] ∧ (A.toAlg T).pop s' ≠ [] := by
+    intro s _
+    obtain ⟨st, h1, h2⟩ := exec_total T hT hW (A.step s.priv s.arena s.pop) s.arena.length (hA.step s.priv s.arena s.pop) s.arena rfl s.calls
+    exact ⟨st, h1, h2, h2⟩
+  obtain ⟨res, sN, bN, h, h1, h2⟩ := runBody_ok ar cfg (A.toAlg T) rate T.dir (fun s => s.agents ≠ []) ⟨s0, [], [], []⟩
+    (by obtain ⟨s1, a, b, c⟩ := hinit; exact ⟨s1, a, b, c⟩) hstep (fun s hs => hs)
+  exact ⟨res, sN, bN, by simp [optimize, hc, h], h1, h2⟩
+
 end C06
